@@ -119,6 +119,11 @@ class Sim:
         self.slow_bias = 0.0          # probability mass removed from 'slow' tasks
         self.user = {}                # scratch space for harnesses
         self.task_excs = []           # uncaught exceptions of simulated threads/processes
+        # optional bytecode-level pre-emption of the threads of one simulated process (they share memory):
+        # opcode events inside matching frames are counted; the task yields when the count hits a planned value
+        self.opcode_plan = None       # sorted list of global opcode-event counts at which to pre-empt
+        self.opcode_pid = 1000
+        self.opcode_count = 0
         self.sig_fn = None            # optional: () -> hashable abstraction of the system state
 
     # ------------------------------------------------------------------ bookkeeping
@@ -193,6 +198,23 @@ class Sim:
         if self.killing and not t is self.main:
             # we were the one that detected a deadlock/livelock while exiting
             pass
+
+    # ------------------------------------------------------------------ bytecode-level pre-emption
+    def on_instruction(self, code, offset):
+        """Called (through sys.monitoring, see sim/opcodes.py) for every bytecode of the instrumented functions."""
+        if self.opcode_plan is None or self.killing or self.closed:
+            return
+        cur = self.current
+        if cur is None or cur.pid != self.opcode_pid or cur.thread is not threading.current_thread():
+            return
+        self.opcode_count += 1
+        plan = self.opcode_plan
+        if plan and plan[0] <= self.opcode_count:
+            while plan and plan[0] <= self.opcode_count:
+                plan.pop(0)
+            self.count("fault.opcode_preemption")
+            self.log("preempt", self.opcode_count, code.co_name, offset)
+            self.yield_("opcode")
 
     # ------------------------------------------------------------------ scheduling core
     def _options(self):
